@@ -7483,6 +7483,12 @@ func (l *Lowerer) lowerNegatedLiteral(lit *parser.Literal) (ir.ExpressionHandle,
 func (l *Lowerer) lowerCall(call *parser.CallExpr, target *[]ir.Statement) (ir.ExpressionHandle, error) {
 	funcName := call.Func.Name
 
+	// A user-declared function shadows a predeclared function of the same name
+	// (fn all(...), fn min(...), ...): the call goes to the user's function.
+	if _, isUserFunc := l.functions[funcName]; isUserFunc {
+		return l.lowerUserCall(funcName, call, target)
+	}
+
 	// Check if this is a built-in function (vec4, vec3, etc.)
 	if l.isBuiltinConstructor(funcName) {
 		return l.lowerBuiltinConstructor(funcName, call.Args, target)
@@ -7598,6 +7604,11 @@ func (l *Lowerer) lowerCall(call *parser.CallExpr, target *[]ir.Statement) (ir.E
 		return l.lowerTypeConstructorCall(typeHandle, call.Args, target)
 	}
 
+	return l.lowerUserCall(funcName, call, target)
+}
+
+// lowerUserCall lowers a call of a user-declared function.
+func (l *Lowerer) lowerUserCall(funcName string, call *parser.CallExpr, target *[]ir.Statement) (ir.ExpressionHandle, error) {
 	// Regular function call - look up function handle
 	funcHandle, ok := l.functions[funcName]
 	if !ok {
